@@ -8,7 +8,8 @@ from .. import core
 from ..core import SKIP
 
 ID = "C09"
-RULE = ("(v3: genomes with ignored '_' contigs of non-zero size; v2: pileup leaves, t[mask], float trees on the Lean model) exhaustive: every sorted non-overlapping bedGraph of <= 3 records on a contig of size 1..S (quick S<=5, thorough S<=7; "
+RULE = ("(v4: + constructor->to_array for float64/32/16,int64,bool, to_bedgraph, t[intervals]/t[locations], from_dict/from_stream, "
+        "read_track from files (memory and streamed), Genome construction variants; v3: genomes with ignored '_' contigs of non-zero size; v2: pileup leaves, t[mask], float trees on the Lean model) exhaustive: every sorted non-overlapping bedGraph of <= 3 records on a contig of size 1..S (quick S<=5, thorough S<=7; "
         "with/without gaps, starting at 0 or later, ending at or before the size, empty), sizes given and None, int and float "
         "values, through GenomicRunLengthArray.from_bedgraph, from_intervals(values=array), Genome.get_track and "
         "Geometry.get_track on genomes of 1..4 chromosomes (every distribution of <= 3 records over chromosomes of size <= 4); "
@@ -47,7 +48,9 @@ MANIFEST = {
             "non-overlapping, ordered; booleans give the True runs), ufunc homomorphism for the specified engine (unary, scalar, "
             "binary with join_runs), sum and histogram; and the composition Genome.get_track(...).to_dict(): records shifted by "
             "chromosome offsets, one genome-wide array, slice per chromosome = the dense array of that chromosome's records "
-            "(track_dense). Correspondence: implementation vs Lean model vs dense NumPy on every small "
+            "(track_dense); t[intervals] rows are the dense slices (extractRows_spec), the dense value at p is the value of the "
+            "run containing p (toDense_getElem), get_data followed by from_bedgraph is lossless (roundtrip_records), binary ufunc "
+            "results are maximal runs (zipRle_maximal). Correspondence: implementation vs Lean model vs dense NumPy on every small "
             "bedGraph and on random expression trees.",
     "note": "npstructures is specified, not verified; float arithmetic compared with NumPy bitwise modulo the sign of zero.",
     "technique": "Lean 4 proof over an executable model; specified external engine; differential correspondence with the implementation and dense NumPy",
